@@ -59,25 +59,28 @@ def main():
             rc, txt = sh([PY, demo], cwd=wt, env=env, timeout=300)
             out["demo_patched_exit"] = rc
             out["demo_patched_tail"] = txt.strip().splitlines()[-3:]
+            results = {}
+            if checks and out["suite_exit_with_patch"] == 0:
+                tag = os.path.basename(wt)
+                for cid in checks:
+                    rc, txt = sh(["./check", cid, "--tier", tier], cwd="/verif", timeout=6000, env={"VERIF_REPO": wt, "VERIF_EVIDENCE_DIR": f"/tmp/seed_evidence/{tag}", "VERIF_REPLAY_DIR": f"/tmp/seed_replays/{tag}"})
+                    sigs = [l.strip()[len("signature: "):] for l in txt.splitlines() if l.strip().startswith("signature:")]
+                    results[cid] = {"exit": rc, "violations": sum(1 for l in txt.splitlines() if l.startswith("VIOLATION")), "signatures": sigs[:6], "harness_error": [l for l in txt.splitlines() if "HARNESS-ERROR" in l or "Traceback" in l][:2]}
+                shutil.rmtree(f"/tmp/seed_evidence/{tag}", ignore_errors=True)
+                shutil.rmtree(f"/tmp/seed_replays/{tag}", ignore_errors=True)
+            out["checks"] = results
     finally:
         sh(["git", "-C", REPO, "worktree", "remove", "--force", wt])
         shutil.rmtree(wt, ignore_errors=True)
     out["confirmed"] = bool(out.get("demo_clean_exit") == 0 and out.get("patch_applies") and out.get("suite_exit_with_patch") == 0 and out.get("demo_patched_exit", 0) != 0)
+    out.setdefault("checks", {})
+    print(json.dumps(out, indent=1))
+    return 0
+
+
+def _unused():
     results = {}
-    if checks and out.get("patch_applies"):
-        rc, txt = sh(["git", "-C", REPO, "status", "--porcelain"])
-        if txt.strip():
-            print("refusing: /repo has uncommitted changes")
-            return 2
-        rc, txt = sh(["git", "-C", REPO, "apply", patch])
-        try:
-            for cid in checks:
-                rc, txt = sh(["./check", cid, "--tier", tier], cwd="/verif", timeout=6000, env={"VERIF_EVIDENCE_DIR": "/tmp/seed_evidence", "VERIF_REPLAY_DIR": "/tmp/seed_replays"})
-                sigs = [l.strip()[len("signature: "):] for l in txt.splitlines() if l.strip().startswith("signature:")]
-                results[cid] = {"exit": rc, "violations": sum(1 for l in txt.splitlines() if l.startswith("VIOLATION")), "signatures": sigs[:6], "harness_error": [l for l in txt.splitlines() if "HARNESS-ERROR" in l][:2]}
-        finally:
-            sh(["git", "-C", REPO, "checkout", "--", "."])
-            sh(["git", "-C", REPO, "clean", "-fdq", "mysensors"])
+    out = {}
     out["checks"] = results
     print(json.dumps(out, indent=1))
     return 0
